@@ -502,7 +502,7 @@ pub proof fn c02_compat_union<M, A>(k1: Know<M, A>, c1: SMap<A, u64>, k2: Know<M
 /// and lo_merge show that every such history keeps `repr`; this lemma is lo_unique.)
 pub proof fn c01_same_knowledge_same_state<M: Hash + Eq, A: Ord + Hash>(s: Orswot<M, A>, t: Orswot<M, A>, k: Know<M, A>)
     requires actor_ok::<A>(), repr(s, k), repr(t, k),
-    ensures s.cl() == t.cl(), s.ents() == t.ents(), forall|cc: VClock<A>| #[trigger] s.dm(cc) == t.dm(cc) && s.defs().contains_key(cc) == t.defs().contains_key(cc),
+    ensures s.cl() == t.cl(), s.ents() == t.ents(), forall|cc: VClock<A>| #[trigger] s.dm(cc) == t.dm(cc), forall|cc: VClock<A>| #[trigger] s.defs().contains_key(cc) == t.defs().contains_key(cc),
 {
     lo_unique(s, t, k);
 }
